@@ -108,8 +108,9 @@ def run(ctx):
     cov = {
         "evaluations": len(cases) + len(lruns), "distinct_nontrivial": distinct,
         "rule": "for each base run every evaluation index k = 2..T is a fault position; the exception type rotates over "
-                "positions and a few positions per base get all 8 types (Exception, ValueError, ZeroDivisionError, TypeError, "
-                "KeyboardInterrupt, SystemExit, GeneratorExit, a custom BaseException); a case is non-trivial when the "
+                "positions and a few positions per base get all 13 types (Exception, ValueError, ZeroDivisionError, TypeError, "
+                "KeyboardInterrupt, SystemExit, GeneratorExit, StopIteration, MemoryError, RecursionError, KeyError, OSError, a custom "
+                "BaseException), with and without arguments, a quarter of the positions under warnings-as-errors; a case is non-trivial when the "
                 "injected exception really fired inside Solve; distinct = distinct (base run, k, type)",
         "samples": [fired[0], fired[len(fired) // 2], fired[-1]] if fired else cases[:1],
         "exhaustive": False,
